@@ -35,7 +35,7 @@ Earlier rounds already produced the following changes for this property; choose 
 """ + ''.join('  - %s\n' % e for e in earlier) + f"""
 Deliverables, all under {out}/ (create the directory):
   1. patch.diff — `git -C {wt} diff` of your change to non-test sources only (no new test files in the diff).
-  2. A demonstration: a NEW Go test file in the worktree (name it <pkg>/seed_demo_test.go or similar, test function names must start with TestSeed) that FAILS with your change and PASSES without it. Leave it as an untracked file in the worktree (do not put it in patch.diff). It must be deterministic (no flaky sleeps; if it needs a schedule, force it with channels/hooks available in the test, or loop until it is certain) and finish within 2 minutes. Verify both directions yourself: run it with the change (fails), `git stash` the change / run (passes) / `git stash pop`.
+  2. A demonstration: a NEW Go test file in the worktree (name it <pkg>/seed_demo_test.go or similar, test function names must start with TestSeed) that FAILS with your change and PASSES without it. Leave it as an untracked file in the worktree (do not put it in patch.diff). It must be deterministic (no flaky sleeps; if it needs a schedule, force it with channels/hooks available in the test, or loop until it is certain) and finish within 2 minutes. Verify both directions yourself: run it with the change (fails), save the change with `git diff > /tmp/seedN-ID.patch`-style file in your OUT directory, `git apply -R` it / run (passes) / `git apply` it again — NEVER use `git stash`: the stash is shared by all worktrees of the repository and other agents work in sibling worktrees.
   3. notes.md — what the change is (file/function), why it breaks the property as stated (refer to the statement's wording), and exactly what is needed for it to manifest (the input, schedule, fault point or operation sequence).
 
 Rules: do not edit or delete existing tests; do not add build tags; do not touch go.mod/go.sum/vendor; keep the change small and plausible (no `if name == "magic"` special-casing; no sleeps added to production code); the change must break THIS property as stated, within its quantifier (not merely some other behaviour). If, while reading the code, you notice that the UNCHANGED code already violates the property for some input/schedule, say so in notes.md under a heading "Side remark" with the concrete failing case — but still deliver a change as asked.
